@@ -76,7 +76,8 @@ P["C02"] = {
 }
 
 # ---------------------------------------------------------------- C03
-c03q = [job("H_C03_unary", conc=True, ek=ek, nd=2) for ek in range(0, 8)] + \
+c03q = [job("H_C03_unary", conc=True, ek=ek, nd=2) for ek in range(0, 10)] + \
+       [job("H_C03_stream", conc=True, ek=ek, nd=1, pos=pos, sending=0, tcap=2) for ek in (8, 9) for pos in (0, 1)] + \
        [job("H_C03_stream", conc=True, ek=ek, nd=1, pos=pos, sending=0, tcap=2) for ek in (0, 1, 3, 4, 6) for pos in (0, 1)] + \
        [job("H_C03_stream", conc=True, ek=1, nd=1, pos=0, sending=1, tcap=2)] + \
        [job("H_C07_cancel", conc=True, hmode=2, cprog=0, m=1, fault=0, tcap=1)]  # no success reported after the caller abandoned a failing stream
@@ -94,8 +95,9 @@ P["C04"] = {
  "bounds": "ToMetadata(ToKeyValue(md)) for K keys (text and -bin, every letter case), 1..V values per key, every value of length 0..vlen over all 256 byte values, all map iteration orders; repeated-MD join; header emission modes (SetHeader+first message, SendHeader, with trailer) end to end are exercised by the C06 scenarios",
  "assumptions": ["encoding/base64 executed from its own SSA (tables as SMT arrays)", "keys are ASCII letters and '-' (gRPC key alphabet)"],
  "quick": [job("H_C04_roundtrip", reach=["checked"], K=2, V=2, vlen=2), job("H_C04_roundtrip", reach=["checked"], K=1, V=1, vlen=3, allbin=1), job("H_C04_join", reach=["checked"]),
-           job("H_C04_request_md", reach=["checked"], deadline=0), job("H_C04_request_md", reach=["checked"], deadline=1)],
- "thorough": [job("H_C04_request_md", reach=["checked"], deadline=0), job("H_C04_request_md", reach=["checked"], deadline=1), job("H_C04_roundtrip", reach=["checked"], K=2, V=2, vlen=2), job("H_C04_roundtrip", reach=["checked"], K=1, V=1, vlen=3, allbin=1),
+           job("H_C04_request_md", reach=["checked"], deadline=0), job("H_C04_request_md", reach=["checked"], deadline=1)] +
+          [job("H_C04_stream_md", conc=True, reach=["checked"], mode=m, herr=h) for m in (0, 1, 2) for h in (0, 1)],
+ "thorough": [job("H_C04_stream_md", conc=True, reach=["checked"], mode=m, herr=h) for m in (0, 1, 2) for h in (0, 1)] + [job("H_C04_request_md", reach=["checked"], deadline=0), job("H_C04_request_md", reach=["checked"], deadline=1), job("H_C04_roundtrip", reach=["checked"], K=2, V=2, vlen=2), job("H_C04_roundtrip", reach=["checked"], K=1, V=1, vlen=3, allbin=1),
               job("H_C04_roundtrip", reach=["checked"], K=3, V=1, vlen=3), job("H_C04_roundtrip", reach=["checked"], K=2, V=2, vlen=3, allbin=1), job("H_C04_join", reach=["checked"])],
 }
 
@@ -108,6 +110,7 @@ P["C05"] = {
            job("H_C05_concurrent_ids", conc=True, reach=["checked"], n=3), job("H_C05_merge", conc=True, reach=["checked"], bodies=2),
            job("H_C05_concurrent_ids", conc=True, reach=["checked"], n=1, streams=1), job("H_C05_concurrent_ids", conc=True, reach=["checked"], n=2, streams=1),
            job("H_C02_stream", conc=True, reach=["checked"], cp=0, hp=0, msgs=1), job("H_C01_direct", conc=True, reach=["quiescent"], callers=2),
+           job("H_C11_server_abandon", conc=True, reach=["checked"], n=3, k=1),
            dict(job("H_C05_concurrent_ids", conc=True, n=1, streams=1), race=True), dict(job("H_C05_concurrent_ids", conc=True, n=2, streams=0), race=True)],
  "thorough": [job("H_C05_ids", conc=True, reach=["checked"]), job("H_C05_dispatch", reach=["to-a", "to-b", "dropped"]), job("H_C05_concurrent_ids", conc=True, reach=["checked"], n=3),
            job("H_C05_merge", conc=True, reach=["checked"], bodies=3), job("H_C01_direct", conc=True, reach=["quiescent"], callers=2),
@@ -119,7 +122,8 @@ P["C05"] = {
 def c06(**kw): return job("H_C06_wire", conc=True, reach=["checked"], **kw)
 c06q = [c06(kind=0, herr=0, hdrmode=1), c06(kind=0, herr=1), c06(kind=1, cp=0, hp=0, msgs=1, hdrmode=1), c06(kind=1, cp=0, hp=0, msgs=1, hdrmode=2),
         c06(kind=1, cp=2, hp=1, msgs=1, herr=1, hdrmode=3), c06(kind=1, cp=0, hp=3, msgs=2), c06(kind=1, cp=2, hp=0, msgs=1, cancel=1, tcap=1), c06(kind=0, cancel=1),
-        c06(kind=1, cp=0, hp=0, msgs=1, wfail=2, tcap=1), c06(kind=1, cp=0, hp=0, msgs=1, badmsg=1, tcap=1)]
+        c06(kind=1, cp=0, hp=0, msgs=1, wfail=2, tcap=1), c06(kind=1, cp=0, hp=0, msgs=1, badmsg=1, tcap=1),
+        c06(kind=1, cp=0, hp=3, msgs=2, zero=1, tcap=2), c06(kind=1, cp=0, hp=0, msgs=1, zero=1)]
 P["C06"] = {
  "title": "every emitted envelope sequence conforms to the documented wire protocol",
  "bounds": "complete wire history (taps on both directions) of one RPC per scenario, checked by the protocol automaton at every quiescent state: unary ok/error/cancel; bidi streams over the C02 program families with header modes {none, SetHeader+first message, SendHeader, SetTrailer}, handler errors, early handler return (reset path) and caller cancellation at an arbitrary point; msgs <= 2; all interleavings",
@@ -167,13 +171,13 @@ P["C11"] = {
 # ---------------------------------------------------------------- C12
 P["C12"] = {
  "title": "no envelope sequence from a peer can crash or stall a server",
- "bounds": "every sequence of L envelopes over 14 shapes x 2 stream ids (header absent, unparsable method, unknown service, unknown method, foreign destination, valid unary, unary with undecodable -bin metadata, stream open, open with bad metadata, body, trailer, RST_STREAM, reset of another type, body for a foreign destination), L = 2 (quick) / 3 (thorough), each followed by a valid probe request and a clean end; all interleavings",
+ "bounds": "every sequence of L envelopes over 17 shapes x 2 stream ids (empty-bodied message, unary request and stream open with a malformed grpc-timeout value, header absent, unparsable method, unknown service, unknown method, foreign destination, valid unary, unary with undecodable -bin metadata, stream open, open with bad metadata, body, trailer, RST_STREAM, reset of another type, body for a foreign destination), L = 2 (quick) / 3 (thorough), each followed by a valid probe request and a clean end; all interleavings",
  "assumptions": GEN_ASSUME,
- "quick": [job("H_C12_seq", conc=True, reach=["checked"], L=2, first=f) for f in range(14)] +
+ "quick": [job("H_C12_seq", conc=True, reach=["checked"], L=2, first=f) for f in range(17)] +
           [job("H_C12_seq", conc=True, reach=["checked"], L=3, first=7, second=9, third=9, oneid=1, lazy=1), job("H_C12_seq", conc=True, reach=["checked"], L=4, first=7, second=9, third=9, oneid=1, lazy=1),
            job("H_C12_seq", conc=True, reach=["checked"], L=2, first=7, lazy=1)] +
           [job("H_C12_method", reach=["parsed", "error"], n=n) for n in (2, 3, 5)] + [job("H_C12_method", reach=["error"], n=0), job("H_C12_method", reach=["error"], n=1), job("H_selftest_lib", reach=["checked"])],
- "thorough": [job("H_C12_seq", conc=True, reach=["checked"], L=3, first=f) for f in range(14)] +
+ "thorough": [job("H_C12_seq", conc=True, reach=["checked"], L=3, first=f) for f in range(17)] +
           [job("H_C12_seq", conc=True, reach=["checked"], L=3, first=7, second=9, lazy=1), job("H_C12_seq", conc=True, reach=["checked"], L=4, first=7, second=9, third=9, oneid=1, lazy=1)],
 }
 
@@ -192,7 +196,8 @@ P["C13"] = {
 
 # ---------------------------------------------------------------- C14
 def c14(**kw): return job("H_C14_release", conc=True, reach=["checked"], **kw)
-c14q = [c14(outcome=o, pre=p, tcap=2) for o in (0, 1, 2, 3, 5, 6, 7) for p in (0, 1)] + [c14(outcome=4, pre=0, tcap=1)]
+c14q = [c14(outcome=o, pre=p, tcap=2) for o in (0, 1, 2, 3, 5, 6, 7) for p in (0, 1)] + [c14(outcome=4, pre=0, tcap=1)] + \
+       [job("H_C11_server_abandon", conc=True, reach=["checked"], n=3, k=1)]  # a handler that returns with messages unconsumed must still be released
 P["C14"] = {
  "title": "finishing an RPC releases everything held for it; state stays bounded",
  "bounds": "inductive step: one complete RPC (unary ok / handler error / transport write failure; stream ok / handler error / caller cancel at any point / failed open) on a real client+server pair, with and without another stream registered before; afterwards both registries have their previous size and the goroutine census is back at the idle level - so histories of any length follow by induction over idle-compatible states; all interleavings",
@@ -248,7 +253,7 @@ P["C19"] = {
 c20q = [job("H_C20_unary_chain", reach=["checked"], n=n) for n in (1, 2, 3, 4)] + [job("H_C20_unary_chain", reach=["checked"], n=3, short=s) for s in (0, 1, 2)] + \
        [job("H_C20_stream_chain", reach=["checked"], n=n) for n in (1, 2, 3, 4)] + \
        [job("H_C20_stats_e2e", conc=True, reach=["checked"], H=h, kind=k, outcome=o) for h in (1, 2) for k in (0, 1) for o in (0, 1)] + \
-       [job("H_C20_stats_failures", conc=True, reach=["checked"], H=2, outcome=o) for o in (0, 1, 2)]
+       [job("H_C20_stats_failures", conc=True, reach=["checked"], H=2, outcome=o) for o in (0, 1, 2, 3)]
 P["C20"] = {
  "title": "interceptors and stats handlers see every RPC exactly once, in order",
  "bounds": "chains of n recording interceptors (1..4 quick, ..6 thorough) with symbolic request/reply rewrites, optionally short-circuiting, driven through the real processUnaryRpc and generated handler / the real chained stream interceptor; H = 1..2 (3 thorough) recording stats handlers on each side, unary and bidi RPC, ok and handler error, end to end with Begin/End pairing, tag propagation and ConnBegin/ConnEnd",
